@@ -74,7 +74,9 @@ def select_one_or_select_many_or_infer(quantifier: Union[Type[An], Type[The], Ty
     if isinstance(entity_, (Entity, SetOf)):
         q = quantifier(entity_)
     elif isinstance(entity_, ResultQuantifier) and not properties:
-        q = entity_
+        # e.g. a predicate-form term T(From(d), f=v), which is already wrapped in An: requantify its description
+        # when another quantifier is asked for.
+        q = entity_ if type(entity_) is quantifier else quantifier(entity_._child_)
     elif isinstance(entity_, CanBehaveLikeAVariable):
         q = quantifier(entity(entity_, *properties))
     elif isinstance(entity_, (list, tuple)):
